@@ -54,6 +54,8 @@ type FuncRun struct {
 	Rounds  int
 	Covers  []*Obligation
 	EncTime time.Duration
+	Phase   [3]time.Duration // houdini, covers+obligations
+	NCand   int
 }
 
 type Baseline struct {
@@ -203,6 +205,7 @@ func cmdCheck(args []string) int {
 		te := time.Now()
 		r.Enc = newEnc(r.Mod.Prog, r.Fn, r.Mod.DB)
 		r.Enc.mod = r.Mod.Name
+		r.Enc.module = r.Mod
 		r.Enc.prop = cfg.ID
 		r.Enc.safety = r.Cfg.Safety
 		r.Enc.spec = r.Cfg.Spec
@@ -256,6 +259,9 @@ func cmdCheck(args []string) int {
 		}
 		for _, u := range dedupe(r.Enc.unsup) {
 			unsup = append(unsup, r.Name+": "+u)
+		}
+		if *verbose {
+			fmt.Printf("   time  %-70s enc %v houdini %v (%d candidates, %d rounds) solve %v\n", r.Name, r.EncTime.Round(time.Millisecond), r.Phase[0].Round(time.Millisecond), r.NCand, r.Rounds, r.Phase[1].Round(time.Millisecond))
 		}
 		for _, u := range dedupe(r.Enc.assumes) {
 			notes = append(notes, r.Name+": "+u)
@@ -503,6 +509,8 @@ func solveFunc(r *FuncRun, timeout, retry time.Duration, thorough bool) {
 		defer func() { <-solverSem }()
 		return race(enc.query(o, model), to)
 	}
+	t0 := time.Now()
+	defer func() { r.Phase[1] = time.Since(t0) - r.Phase[0] }()
 	for {
 		r.Rounds++
 		changed := false
@@ -514,7 +522,9 @@ func solveFunc(r *FuncRun, timeout, retry time.Duration, thorough bool) {
 			wg.Add(1)
 			go func(o *Obligation) {
 				defer wg.Done()
-				o.Result = ask(o, false, 3*time.Second)
+				solverSem <- struct{}{}
+				defer func() { <-solverSem }()
+				o.Result = raceSet(enc.query(o, false), 2*time.Second, solvers[:2])
 			}(o)
 		}
 		wg.Wait()
@@ -529,10 +539,14 @@ func solveFunc(r *FuncRun, timeout, retry time.Duration, thorough bool) {
 		}
 	}
 	for _, c := range enc.cands {
+		if !c.user {
+			r.NCand++
+		}
 		if c.alive && !c.user {
 			r.Kept = append(r.Kept, c.desc)
 		}
 	}
+	r.Phase[0] = time.Since(t0)
 	var wg sync.WaitGroup
 	for _, rt := range enc.rets {
 		o := &Obligation{Name: fmt.Sprintf("%s#cover:return@b%d", r.Name, rt.b.Index), Kind: "cover", NCons: len(enc.cons), Goal: not(enc.reach[rt.b]),
@@ -541,7 +555,9 @@ func solveFunc(r *FuncRun, timeout, retry time.Duration, thorough bool) {
 		wg.Add(1)
 		go func(o *Obligation) {
 			defer wg.Done()
-			o.Result = ask(o, false, 3*time.Second)
+			solverSem <- struct{}{}
+			defer func() { <-solverSem }()
+			o.Result = raceSet(enc.query(o, false), 2*time.Second, solvers[:2])
 		}(o)
 	}
 	for _, o := range enc.obls {
